@@ -518,6 +518,10 @@ func (fr *Frame) intrinsic(st *State, callee *ssa.Function, key string, args []V
 			vc.oblige("assert", top.oblFn, fr.oblName("assert"), fr.curCond, args[0].C[0], fr.pos(pos), "vassert")
 			return nil, true
 		}
+	case "vstreq":
+		if callee.Signature.Recv() == nil && len(args) == 2 {
+			return []Val{{T: types.Typ[types.Bool], C: []string{vc.strEqExt(args[0].C[0], args[1].C[0])}}}, true
+		}
 	case "vassume":
 		if callee.Signature.Recv() == nil && len(args) == 1 {
 			vc.fact(fr.curCond, args[0].C[0])
